@@ -98,21 +98,37 @@ def rule_formula(ctx):
     renamed_body = ("phi", clash, (("then", ("call", "Formula::substitute", (("acc", BODY), EACH, ("call", "From::from[GeneralTerm<-Variable]", (cand,))))), ("else", ("acc", BODY))))
     new_vars = ("phi", clash, (("then", ("upd", ("acc", ("list", ())), "push", (cand,))), ("else", ("upd", ("acc", ("list", ())), "push", (EACH,)))))
     ref = ("call", "Formula::quantify", (("call", "Formula::substitute", (renamed_body, VAR, TERM)), Q, new_vars))
+    t, ref, renamed_body = _shape(t), _shape(ref), _shape(renamed_body)
     ctx.add("TPL", "quantified", t == ref, site,
             "Q V F: bound variables occurring in the term are renamed first (body and binder list, in place), then the term is substituted, then Q is rebuilt with the same quantifier",
             construct=None if t == ref else sym.pretty(t, width=180)[:1200])
     r = repr(t)
-    ctx.add("FRESH-TAKEN", "candidate:not-in-term", repr(("op", "Not", ("call", "IndexSet::contains", (("call", "GeneralTerm::variables", (TERM,)), ("param", "candidate"))))) in r, site,
+    ctx.add("FRESH-TAKEN", "candidate:not-in-term", repr(("op", "Not", ("call", "IndexSet::contains", (("call", "GeneralTerm::variables", (TERM,)), ("param", "$0"))))) in r, site,
             "a fresh name must not be a variable of the substituted term")
-    ctx.add("FRESH-TAKEN", "candidate:not-free-in-body", repr(("op", "Not", ("call", "IndexSet::contains", (("call", "Formula::free_variables", (BODY,)), ("param", "candidate"))))) in r, site,
+    ctx.add("FRESH-TAKEN", "candidate:not-free-in-body", repr(("op", "Not", ("call", "IndexSet::contains", (("call", "Formula::free_variables", (BODY,)), ("param", "$0"))))) in r, site,
             "a fresh name must not be free in the quantifier's body (would be captured by the renamed binder)")
     ctx.add("FRESH-TAKEN", "rename-before-substitute", t[:2] == ("call", "Formula::quantify") and t[2][0][:2] == ("call", "Formula::substitute") and t[2][0][2][0] == renamed_body, site,
             "the renaming substitution of the body happens before (inside) the substitution of the term")
     sq = fx.fn("sigma_0::Variable::sequence")
-    vs = sym.Eval(fx, inline_depth=0).function(sq)
-    ref = ("call", "Iterator::map", (("ctor", "RangeFrom", (("start", ("lit", 1)),)), ("closure", ("i",), ("ctor", "Variable", (
-        ("name", ("format", "{}{}", (("place", "prefix.name"), ("param", "i")))), ("sort", ("place", "prefix.sort")))))))
-    ctx.add("FRESH-TAKEN", "sequence", vs == ref, ctx.site(sq), "Variable::sequence(v) = v.name1, v.name2, ... of v's sort: an infinite supply, so find() always succeeds", construct=vs)
+    vs = sym.Eval(fx, inline_depth=0).function(sq, [("ctor", "Variable", (("name", ("param", "$name")), ("sort", ("param", "$sort"))))])
+    ref = ("call", "Iterator::map", (("ctor", "RangeFrom", (("start", ("lit", 1)),)), ("closure", ("$0",), ("ctor", "Variable", (
+        ("name", ("format", "{}{}", (("param", "$name"), ("param", "$0")))), ("sort", ("param", "$sort")))))))
+    ctx.add("FRESH-TAKEN", "sequence", _shape(vs) == ref, ctx.site(sq), "Variable::sequence(v) = v.name1, v.name2, ... of v's sort: an infinite supply, so find() always succeeds", construct=vs)
+
+
+def _shape(t, depth=0):
+    """The term up to the spelling that cannot matter: closure parameters are numbered by nesting depth and position, and a two-way choice on
+    a negated condition is the opposite choice on the condition."""
+    if not isinstance(t, tuple):
+        return t
+    if len(t) == 3 and t[0] == "closure" and all(isinstance(p, str) and "/" not in p and "+" not in p for p in t[1]):
+        names = tuple("$%d" % (depth + i) for i in range(len(t[1])))
+        return ("closure", names, _shape(sym.subst(t[2], {p: ("param", n) for p, n in zip(t[1], names)}), depth + len(names)))
+    t = tuple(_shape(x, depth) for x in t)
+    if len(t) == 3 and t[0] == "phi" and t[1][0] == "if" and isinstance(t[1][1], tuple) and t[1][1][:2] == ("op", "Not") and len(t[2]) == 2 \
+            and t[2][0][0] == "then" and t[2][1][0] == "else":
+        return ("phi", ("if", t[1][1][2]), (("then", t[2][1][1]), ("else", t[2][0][1])))
+    return t
 
 
 def _canon_tests(ts):
